@@ -22,10 +22,49 @@ Proof. intros H. unfold hexdig. destruct (d <? 10) eqn:E; lia. Qed.
 Lemma hexnum2 a b : a < 16 -> b < 16 -> hexnum 0 [hexdig a; hexdig b] = Some (a * 16 + b).
 Proof. intros. cbn [hexnum]. rewrite !hexval_hexdig by lia. reflexivity. Qed.
 
+Lemma dd r a b : a <> 0 -> b <> 0 -> r / (a * b) = r / a / b.
+Proof. intros. now rewrite N.div_div. Qed.
+Lemma digit_split q : q = 16 * (q / 16) + q mod 16 /\ q mod 16 < 16.
+Proof. split. apply N.div_mod'. apply N.mod_lt. lia. Qed.
+Ltac split16 q q' d :=
+  let E := fresh "E" in let L := fresh "L" in
+  destruct (digit_split q) as [E L];
+  let H1 := fresh in let H2 := fresh in
+  remember (q / 16) as q' eqn:H1; remember (q mod 16) as d eqn:H2; clear H1 H2.
+
+Lemma hex4_sum r : r < 65536 ->
+  (((0 * 16 + (r / 4096) mod 16) * 16 + (r / 256) mod 16) * 16 + (r / 16) mod 16) * 16 + r mod 16 = r.
+Proof.
+  intros H.
+  change 4096 with (16*16*16). change 256 with (16*16).
+  rewrite !dd by lia.
+  split16 r q1 d0. split16 q1 q2 d1. split16 q2 q3 d2. split16 q3 q4 d3. lia.
+Qed.
+
+Lemma hex8_sum r : r < 4294967296 ->
+ (((((((0 * 16 + (r / 268435456) mod 16) * 16 + (r / 16777216) mod 16) * 16 + (r / 1048576) mod 16) * 16
+   + (r / 65536) mod 16) * 16 + (r / 4096) mod 16) * 16 + (r / 256) mod 16) * 16 + (r / 16) mod 16) * 16 + r mod 16 = r.
+Proof.
+  intros H.
+  change 268435456 with (16*16*16*16*16*16*16).
+  change 16777216 with (16*16*16*16*16*16).
+  change 1048576 with (16*16*16*16*16).
+  change 65536 with (16*16*16*16).
+  change 4096 with (16*16*16).
+  change 256 with (16*16).
+  rewrite !dd by lia.
+  split16 r q1 d0. split16 q1 q2 d1. split16 q2 q3 d2. split16 q3 q4 d3.
+  split16 q4 q5 d4. split16 q5 q6 d5. split16 q6 q7 d6. split16 q7 q8 d7.
+  lia.
+Qed.
+
+Lemma mod16_lt q : q mod 16 < 16.
+Proof. apply N.mod_lt. lia. Qed.
+
 Lemma hexnum4 r : r < 65536 ->
   hexnum 0 [hexdig ((r / 4096) mod 16); hexdig ((r / 256) mod 16); hexdig ((r / 16) mod 16); hexdig (r mod 16)] = Some r.
 Proof.
-  intros. cbn [hexnum]. rewrite !hexval_hexdig by lia. f_equal. lia.
+  intros. cbn [hexnum]. rewrite !hexval_hexdig by apply mod16_lt. f_equal. now apply hex4_sum.
 Qed.
 
 Lemma hexnum8 r : r < 4294967296 ->
@@ -34,7 +73,7 @@ Lemma hexnum8 r : r < 4294967296 ->
             hexdig ((r / 4096) mod 16); hexdig ((r / 256) mod 16);
             hexdig ((r / 16) mod 16); hexdig (r mod 16)] = Some r.
 Proof.
-  intros. cbn [hexnum]. rewrite !hexval_hexdig by lia. f_equal. lia.
+  intros. cbn [hexnum]. rewrite !hexval_hexdig by apply mod16_lt. f_equal. now apply hex8_sum.
 Qed.
 
 (* ---- res ------------------------------------------------------------------ *)
@@ -43,12 +82,22 @@ Proof. intros ->. reflexivity. Qed.
 
 (* ---- list helpers --------------------------------------------------------- *)
 Lemma last_snoc (l : list N) x d : last (l ++ [x]) d = x.
-Proof. induction l as [|a l IH]; [reflexivity|]. cbn [app]. destruct (l ++ [x]) eqn:E.
-  - destruct l; discriminate.
-  - cbn [last]. rewrite <- E. exact IH. Qed.
+Proof. apply last_last. Qed.
 
 Lemma firstn_snoc_all (l : list N) x : firstn (length l) (l ++ [x]) = l.
 Proof. rewrite firstn_app, Nat.sub_diag, firstn_all. cbn. now rewrite app_nil_r. Qed.
+
+Lemma valid_from_skip k s : (k <= length s)%nat -> valid_utf8_from k s = valid_utf8_from 0 (skipn k s).
+Proof.
+  revert s. induction k as [|k IH]; intros s H; [reflexivity|].
+  destruct s as [|b t]; [simpl in H; lia|]. cbn [valid_utf8_from skipn]. apply IH. simpl in H. lia.
+Qed.
+
+Lemma bytes_ok_skipn k s : bytes_ok s -> bytes_ok (skipn k s).
+Proof.
+  revert s. induction k; intros s H; [exact H|]. destruct s; [exact H|].
+  cbn [skipn]. apply IHk. now inversion H.
+Qed.
 
 Section WithIsPrint.
 Variable is_print : N -> bool.
@@ -79,7 +128,7 @@ Proof.
   cbn [app]. rewrite unq_plain by assumption. apply rmap_ok. now apply IH.
 Qed.
 
-Lemma unq_no_special ib raw l :
+Lemma unq_no_special (ib raw : bool) (l : list N) :
   contains_any l (if raw then [c_cr] else [c_bs; c_cr]) = false -> unq_loop ib raw l = Ok l.
 Proof.
   induction l as [|c l IH]; intros H; [reflexivity|].
@@ -88,6 +137,29 @@ Proof.
   assert (A : (c =? c_cr) = false) by (destruct raw; cbn in H1; lia).
   assert (B : ((c =? c_bs) && negb raw) = false) by (destruct raw; cbn in H1; lia).
   rewrite A, B. apply rmap_ok. apply IH. exact H2.
+Qed.
+
+(* ---- the numeric escapes, for arbitrary digit bytes -------------------------- *)
+Lemma unq_x ib h1 h2 t n :
+  hexnum 0 [h1; h2] = Some n -> (negb ib && (127 <? n)) = false ->
+  unq_loop ib false (92 :: 120 :: h1 :: h2 :: t) = rmap (cons n) (unq_loop ib false t).
+Proof. intros H G. cbn -[hexnum]. rewrite H, G. reflexivity. Qed.
+
+Lemma unq_u ib h1 h2 h3 h4 t n :
+  hexnum 0 [h1; h2; h3; h4] = Some n ->
+  unq_loop ib false (92 :: 117 :: h1 :: h2 :: h3 :: h4 :: t) = code_point n (unq_loop ib false t).
+Proof. intros H. cbn -[hexnum code_point]. rewrite H. reflexivity. Qed.
+
+Lemma unq_U ib h1 h2 h3 h4 h5 h6 h7 h8 t n :
+  hexnum 0 [h1; h2; h3; h4; h5; h6; h7; h8] = Some n ->
+  unq_loop ib false (92 :: 85 :: h1 :: h2 :: h3 :: h4 :: h5 :: h6 :: h7 :: h8 :: t) = code_point n (unq_loop ib false t).
+Proof. intros H. cbn -[hexnum code_point]. rewrite H. reflexivity. Qed.
+
+Lemma unq_esc ib e v t :
+  unesc e = Some v -> e <> 10 ->
+  unq_loop ib false (92 :: e :: t) = rmap (cons v) (unq_loop ib false t).
+Proof.
+  intros H Hne. cbn -[unesc]. assert (A : (e =? c_nl) = false) by (cst; lia). rewrite A, H. reflexivity.
 Qed.
 
 (* ---- one quoted rune reads back as its encoding ---------------------------- *)
@@ -108,11 +180,11 @@ Proof.
     destruct (is_print_not_newline r E2) as [P1 P2].
     destruct (r <? 0x80) eqn:E3.
     - rewrite utf8_encode_ascii by lia. constructor; [|constructor]. unfold plain. cst. lia.
-    - eapply Forall_impl; [|apply utf8_encode_high; lia]. intros a Ha. unfold plain. lia. }
+    - eapply Forall_impl; [|apply utf8_encode_high; lia]. intros a Ha. cbv beta in Ha. unfold plain. lia. }
   assert (ESC : forall v e, r = v -> unesc e = Some v -> e <> 10 -> v < 0x80 ->
                 unq_loop ib false ([c_bs; e] ++ t) = Ok (utf8_encode r ++ x)).
-  { intros v e -> Hu Hne Hv. rewrite utf8_encode_ascii by lia. cbn [app unq_loop]. cst.
-    assert (A : (e =? 10) = false) by lia. cbn. rewrite A, Hu, Ht. reflexivity. }
+  { intros v e -> Hu Hne Hv. rewrite utf8_encode_ascii by lia. cbn [app].
+    change c_bs with 92. rewrite (unq_esc ib e v t Hu Hne), Ht. reflexivity. }
   destruct (r =? 7) eqn:C1; [apply (ESC 7 97); try reflexivity; lia|].
   destruct (r =? 8) eqn:C2; [apply (ESC 8 98); try reflexivity; lia|].
   destruct (r =? 12) eqn:C3; [apply (ESC 12 102); try reflexivity; lia|].
@@ -123,26 +195,23 @@ Proof.
   clear ESC.
   destruct ((r <? 32) || (r =? 127)) eqn:E3.
   { (* \xHH, at most 0x7f *)
-    rewrite utf8_encode_ascii by lia.
-    cbn [app unq_loop]. cbn [c_bs c_cr c_nl N.eqb Pos.eqb andb negb unesc is_oct].
-    change (unq_loop ib false (92 :: 120 :: hexdig (r / 16) :: hexdig (r mod 16) :: t) = Ok (r :: x)).
-    cbn [unq_loop]. cbn.
-    assert (Q : hexnum 0 [hexdig (r / 16); hexdig (r mod 16)] = Some r).
-    { rewrite hexnum2 by lia. f_equal. lia. }
-    cbn [hexnum] in Q. rewrite Q.
-    assert (G : (negb ib && (127 <? r)) = false) by lia. rewrite G, Ht. reflexivity. }
+    rewrite utf8_encode_ascii by lia. cbn [app]. change c_bs with 92.
+    rewrite (unq_x ib _ _ t r).
+    - rewrite Ht. reflexivity.
+    - rewrite hexnum2 by lia. f_equal. lia.
+    - lia. }
   assert (Hsc : is_surrogate r = false /\ r <= 0x10FFFF) by (unfold is_scalar, max_rune in Hs; lia).
   destruct Hsc as [Hsur Hmax].
+  assert (M : (max_rune <? r) = false) by (cst; lia).
   destruct ((max_rune <? r) || (r <? 65536)) eqn:E4.
-  { assert (M : (max_rune <? r) = false) by (cst; lia). rewrite M.
+  { rewrite M.
     assert (L : r < 65536) by (cst; lia).
-    cbn [app unq_loop]. cbn.
-    pose proof (hexnum4 r L) as Q. cbn [hexnum] in Q. rewrite Q.
+    cbn [app]. change c_bs with 92.
+    rewrite (unq_u ib _ _ _ _ t r (hexnum4 r L)).
     unfold code_point. rewrite M, Hsur, Ht. reflexivity. }
-  { assert (M : (max_rune <? r) = false) by (cst; lia).
-    cbn [app unq_loop]. cbn.
-    assert (L : r < 4294967296) by lia.
-    pose proof (hexnum8 r L) as Q. cbn [hexnum] in Q. rewrite Q.
+  { assert (L : r < 4294967296) by lia.
+    cbn [app]. change c_bs with 92.
+    rewrite (unq_U ib _ _ _ _ _ _ _ _ t r (hexnum8 r L)).
     unfold code_point. rewrite M, Hsur, Ht. reflexivity. }
 Qed.
 
@@ -151,10 +220,11 @@ Lemma unq_quote_badbyte b t x :
   b < 256 -> unq_loop true false t = Ok x ->
   unq_loop true false ([c_bs; 120; hexdig (b / 16); hexdig (b mod 16)] ++ t) = Ok (b :: x).
 Proof.
-  intros Hb Ht. cbn [app unq_loop]. cbn.
-  assert (Q : hexnum 0 [hexdig (b / 16); hexdig (b mod 16)] = Some b).
-  { rewrite hexnum2 by lia. f_equal. lia. }
-  cbn [hexnum] in Q. rewrite Q, Ht. reflexivity.
+  intros Hb Ht. cbn [app]. change c_bs with 92.
+  rewrite (unq_x true _ _ t b).
+  - rewrite Ht. reflexivity.
+  - rewrite hexnum2 by lia. f_equal. lia.
+  - reflexivity.
 Qed.
 
 (* ---- stepping through the string -------------------------------------------- *)
@@ -164,22 +234,10 @@ Proof.
   destruct s as [|b t]; [simpl in H; lia|]. cbn [Quote.quote_body skipn]. apply IH. simpl in H. lia.
 Qed.
 
-Lemma valid_from_skip k s : (k <= length s)%nat -> valid_utf8_from k s = valid_utf8_from 0 (skipn k s).
-Proof.
-  revert s. induction k as [|k IH]; intros s H; [reflexivity|].
-  destruct s as [|b t]; [simpl in H; lia|]. cbn [valid_utf8_from skipn]. apply IH. simpl in H. lia.
-Qed.
-
-Lemma bytes_ok_skipn k s : bytes_ok s -> bytes_ok (skipn k s).
-Proof.
-  revert s. induction k; intros s H; [exact H|]. destruct s; [exact H|].
-  cbn [skipn]. apply IHk. now inversion H.
-Qed.
-
 (* The loop of Quote followed by the loop of unquote is the identity:
    in a bytes literal for every byte string, in a string literal for every
    well-formed UTF-8 string. *)
-Lemma unq_quote_body_len : forall n s ib,
+Lemma unq_quote_body_len : forall (n : nat) (s : list N) (ib : bool),
   (length s <= n)%nat ->
   (if ib then bytes_ok s else valid_utf8 s = true) ->
   unq_loop ib false (quote_body 0 s) = Ok s.
@@ -192,7 +250,6 @@ Proof.
   pose proof (utf8_decode_width (b :: t)) as Hw. rewrite D in Hw. cbn [snd] in Hw.
   pose proof (utf8_decode_width_pos b t) as Hw1. rewrite D in Hw1. cbn [snd] in Hw1.
   assert (Hlen : (w - 1 <= length t)%nat) by (simpl in Hw; lia).
-  rewrite quote_body_skip by exact Hlen.
   assert (Hrest : if ib then bytes_ok (skipn (w - 1) t) else valid_utf8 (skipn (w - 1) t) = true).
   { destruct ib.
     - apply bytes_ok_skipn. now inversion Hok.
@@ -201,7 +258,7 @@ Proof.
       rewrite valid_from_skip in Hok by exact Hlen. exact Hok. }
   assert (IHr : unq_loop ib false (quote_body 0 (skipn (w - 1) t)) = Ok (skipn (w - 1) t)).
   { apply IH; [|exact Hrest]. rewrite skipn_length. simpl in Hn. lia. }
-  destruct (Nat.eqb w 1 && (r =? rune_error)) eqn:Bad.
+  destruct (Nat.eqb w 1 && (r =? rune_error)) eqn:Bad; rewrite quote_body_skip by exact Hlen.
   { (* ill-formed byte *)
     assert (W : w = 1%nat) by (apply andb_true_iff in Bad; destruct Bad as [B1 _]; now apply Nat.eqb_eq in B1).
     subst w. cbn [Nat.sub skipn] in *.
@@ -216,12 +273,12 @@ Proof.
     { unfold decode_invalid. cbn [fst snd]. rewrite andb_comm. exact Bad. }
     destruct (utf8_decode_inv (b :: t) r w D Hv ltac:(discriminate)) as (Hsc & Heq & Hwl).
     assert (S1 : skipn w (b :: t) = skipn (w - 1) t).
-    { destruct w; [lia|]. cbn [skipn]. now rewrite Nat.sub_0_r. }
-    rewrite S1 in Heq. rewrite Heq at 2.
+    { destruct w; [lia|]. cbn [skipn]. f_equal. lia. }
+    rewrite S1 in Heq. rewrite Heq.
     apply unq_quote_rune; assumption. }
 Qed.
 
-Lemma unq_quote_body s ib :
+Lemma unq_quote_body (s : list N) (ib : bool) :
   (if ib then bytes_ok s else valid_utf8 s = true) ->
   unq_loop ib false (quote_body 0 s) = Ok s.
 Proof. apply (unq_quote_body_len (length s)). lia. Qed.
@@ -258,20 +315,20 @@ Proof.
 Qed.
 
 (* unquote on the text  [b] dq body dq  *)
-Lemma unquote_core_wrapped ib body s :
+Lemma unquote_core_wrapped (ib : bool) (body s : list N) :
   (forall c l, body = c :: l -> c <> 34) ->
   unq_loop ib false body = Ok s ->
   unquote_core false ib (c_dq :: body ++ [c_dq]) = Ok (s, false, ib).
 Proof.
-  intros Hhd Hloop. unfold unquote_core.
-  set (q2 := c_dq :: body ++ [c_dq]).
-  assert (Hn : length q2 = S (S (length body))).
-  { subst q2. cbn [length]. rewrite app_length. cbn. lia. }
+  intros Hhd Hloop. unfold unquote_core. cbv zeta.
+  assert (Hn : length (c_dq :: body ++ [c_dq]) = S (S (length body))).
+  { cbn [length]. rewrite app_length. cbn. lia. }
   rewrite Hn.
   assert (L2 : Nat.ltb (S (S (length body))) 2 = false) by (apply Nat.ltb_ge; lia). rewrite L2.
-  subst q2.
-  change (c_dq :: body ++ [c_dq]) with ((c_dq :: body) ++ [c_dq]) at 2.
-  rewrite last_snoc.
+  cbv beta iota.
+  assert (LL : last (c_dq :: body ++ [c_dq]) 0 = c_dq).
+  { change (c_dq :: body ++ [c_dq]) with ((c_dq :: body) ++ [c_dq]). apply last_snoc. }
+  rewrite LL.
   assert (Q : ((negb (c_dq =? c_dq) && negb (c_dq =? c_sq)) || negb (c_dq =? c_dq)) = false) by reflexivity.
   rewrite Q.
   assert (T : (Nat.leb 6 (S (S (length body))) && (nth 1 (c_dq :: body ++ [c_dq]) 0 =? c_dq)) = false).
